@@ -60,6 +60,8 @@ def setup_path(world, contract, ex, ctx, prefix):
     p.called, p.inlined, p.used_abstract, p.written = set(), set(), set(), set()
     p.havoc_n = 0
     p.heap_epoch = 0
+    p.seq_pos = {}
+    p.last_sorted = None
     p.pure_axioms = set()
     p.cut_hit = False
     p.assume(p.alloc > 0)
@@ -274,13 +276,27 @@ def discharge(ob, timeout_ms):
         ob.result, ob.solver = 'discharged', 'simplifier'
         ob.ms = 0
         return
-    s = z3.Solver()
-    s.set('timeout', timeout_ms)
-    for h in ob.hyps:
-        s.add(h)
-    s.add(z3.Not(g))
-    r = s.check()
     ob.solver = 'z3-' + z3.get_version_string()
+    r = z3.unknown
+    s = None
+    # portfolio: (1) pure e-matching (fast, can only prove), (2) default z3 incl. MBQI (proves or refutes)
+    for cfg, budget in (({'smt.mbqi': False, 'smt.auto_config': False}, min(timeout_ms, 5000)),
+                        ({}, timeout_ms)):
+        s = z3.Solver()
+        s.set('timeout', budget)
+        for k_, v_ in cfg.items():
+            s.set(k_, v_)
+        for h in ob.hyps:
+            s.add(h)
+        s.add(z3.Not(g))
+        r = s.check()
+        if r == z3.unsat:
+            ob.solver += ' (e-matching)' if cfg else ''
+            break
+        if r == z3.sat and not cfg:
+            break
+        if r == z3.sat and cfg:
+            r = z3.unknown      # without MBQI a 'sat' is not a model of the quantified hypotheses
     if r == z3.unsat:
         ob.result = 'discharged'
     elif r == z3.sat:
